@@ -58,10 +58,11 @@ impl Monitor for C13 {
             ("shape_append(empty-batch,Some)", f),
             ("restarts_after_noop_checked", tier.pick(3_000, 60_000)),
             ("checked_under_lazy_policy", tier.pick(5_000, 100_000)),
+            ("checked_with_bytes_possibly_buffered", tier.pick(5_000, 100_000)),
         ]
     }
     fn rule(&self) -> String {
-        "case = one generated history under any of 6 persist policies with rejected / no-op call shapes inserted at random points (8 shapes, on existing and non-existing queues); around each such call: persist(Flush) to drain buffers, snapshot + per-file content hash of the directory, the call, a trailing persist(Flush), then: no write/ftruncate/create/unlink/rename event in the syscall trace of the call + trailing flush, snapshot, disk_used_bytes and directory content unchanged, wal_bytes_written == 0; with probability 1/3 an immediate restart must also reproduce the pre-call snapshot; evaluation = one such call; distinct_nontrivial = distinct (shape, policy, pre-call state digest)".into()
+        "case = one generated history under any of 6 persist policies with rejected / no-op call shapes inserted at random points (8 shapes, on existing and non-existing queues); around each such call: (half of the time) persist(Flush) to drain buffers, snapshot + per-file content hash of the directory, the call, (if drained) a trailing persist(Flush), then: the syscall trace of the call itself is EMPTY (no write, no fsync, no open, no seek) and the trailing flush writes nothing, snapshot, disk_used_bytes and directory content unchanged, wal_bytes_written == 0; with probability 1/3 an immediate restart must also reproduce the pre-call snapshot; evaluation = one such call; distinct_nontrivial = distinct (shape, policy, pre-call state digest)".into()
     }
     fn run_case(&self, ctx: &Ctx, case: u64, acc: &mut Acc) {
         let parts = ctx.case_seed(case);
@@ -97,8 +98,13 @@ impl Monitor for C13 {
             }
             // a rejected / no-op shape
             let bad = d.gen.gen_bad();
-            // drain buffered bytes so the window is clean under lazy policies
-            let _ = d.apply(Op::Persist { fsync: false });
+            // half of the time drain buffered bytes first, so that the directory content can be
+            // compared byte for byte around the call; the other half leave whatever earlier
+            // calls buffered (lazy policies) in place: the no-op must not flush it either
+            let drained = rng.chance(1, 2);
+            if drained {
+                let _ = d.apply(Op::Persist { fsync: false });
+            }
             let before = match Snapshot::take(d.sut.log()) {
                 Ok(s) => s,
                 Err(e) => {
@@ -116,7 +122,7 @@ impl Monitor for C13 {
             };
             d.gen.note_external(&bad);
             let st = d.apply(bad.clone());
-            let tail = d.apply(Op::Persist { fsync: false });
+            let tail_events = if drained { d.apply(Op::Persist { fsync: false }).events } else { Vec::new() };
             if st.outcome.is_io_err() {
                 acc.inconclusive(format!("I/O error or panic from a live call: {:?}", st.outcome));
                 return;
@@ -139,10 +145,23 @@ impl Monitor for C13 {
             }
             acc.distinct(hash_combine(hash_combine(hash_str(shape), hash_str(policy.name())), before.digest()));
             let detail = |what: &str, extra: serde_json::Value| json!({"history": d.history_json(300), "call": st.op.to_json(), "outcome": st.outcome.to_json(), "shape": shape, "violated": what, "observation": extra});
-            // (1) no mutating event in the call window nor in the trailing flush
-            let muts: Vec<String> = st.events.iter().chain(tail.events.iter()).filter(|e| e.mutates()).map(|e| e.brief()).collect();
+            // (1) the I/O trace of the call itself must be EMPTY: no write, no fsync, no open,
+            //     no seek, nothing; and the flush issued right after it (drained mode) must
+            //     find nothing to write
+            let in_call: Vec<String> = st.events.iter().filter(|e| !matches!(e, crate::shim::Ev::Mark { .. })).map(|e| e.brief()).collect();
+            acc.count(if drained { "checked_with_drained_buffer" } else { "checked_with_bytes_possibly_buffered" });
+            if !in_call.is_empty() {
+                let mutating = st.events.iter().any(|e| e.mutates());
+                acc.violation(
+                    format!("C13/io-trace-not-empty/{}{}", shape, if mutating { "" } else { "/sync-or-read-only-calls" }),
+                    case,
+                    detail("the rejected / no-op call issued file-system calls", json!({"events": in_call, "policy": policy.name(), "buffer_drained_before_the_call": drained})),
+                );
+                return;
+            }
+            let muts: Vec<String> = tail_events.iter().filter(|e| e.mutates()).map(|e| e.brief()).collect();
             if !muts.is_empty() {
-                acc.violation(format!("C13/io-trace-not-empty/{}", shape), case, detail("the call (or the flush right after it) changed the directory", json!({"events": muts})));
+                acc.violation(format!("C13/io-trace-not-empty/{}/flushed-right-after", shape), case, detail("the flush right after the call had something to write", json!({"events": muts})));
                 return;
             }
             // (2) reported bytes
@@ -168,7 +187,7 @@ impl Monitor for C13 {
                 acc.violation(format!("C13/disk_used_bytes-changed/{}", shape), case, detail("disk_used_bytes changed", json!({})));
                 return;
             }
-            if Image::from_dir(&dir).digest() != img_before {
+            if drained && Image::from_dir(&dir).digest() != img_before {
                 acc.violation(format!("C13/wal-content-changed/{}", shape), case, detail("WAL file contents changed", json!({})));
                 return;
             }
